@@ -13,6 +13,41 @@ use core::fmt;
 
 pub const ENGINE_ID: u64 = 17;
 
+/// A payload whose own `Display` can fail: `err_at` 0 = never, 1 = before any output, 2 = after half of
+/// the text, 3 = after all of it. Used only in named-field placeholders (the tuple arm renders through
+/// `format!`, which panics on such a value exactly like the `format!` the statement refers to).
+#[derive(Clone, Debug, PartialEq)]
+pub struct Flaky {
+    pub text: &'static str,
+    pub err_at: u8,
+}
+impl Pick for Flaky {
+    fn pick(i: u64) -> Flaky {
+        // most picks are well behaved, so that ordinary runs dominate
+        let err_at = if i % 3 == 0 { ((i / 3) % 4) as u8 } else { 0 };
+        Flaky { text: pick_str(i / 12), err_at }
+    }
+}
+impl fmt::Display for Flaky {
+    fn fmt(&self, f: &mut fmt::Formatter<'_>) -> fmt::Result {
+        if self.err_at == 1 {
+            return Err(fmt::Error);
+        }
+        let chars: Vec<char> = self.text.chars().collect();
+        let half: String = chars[..chars.len() / 2].iter().collect();
+        let rest: String = chars[chars.len() / 2..].iter().collect();
+        f.write_str(&half)?;
+        if self.err_at == 2 {
+            return Err(fmt::Error);
+        }
+        f.write_str(&rest)?;
+        if self.err_at == 3 {
+            return Err(fmt::Error);
+        }
+        Ok(())
+    }
+}
+
 pub trait Subject {
     fn display(&self) -> &dyn fmt::Display;
     /// reference rendering of an interpolated variant (generator-written `write!`)
@@ -96,6 +131,7 @@ pub const NAMES: &[&str] = &[
     "probe_refused_with_empty_output", "probe_refused_mid_output", "probe_refused_between_interpolation_pieces",
     "probe_budget_exactly_output_len", "probe_same_chunking_as_reference", "probe_different_chunking_than_reference",
     "probe_name_has_escaped_braces", "probe_name_multibyte", "probe_empty_name", "probe_plan_never_fired",
+    "fault_field_display_err_fired",
 ];
 const R_FIXED_UNIT: usize = 0;
 const R_INTERP_TUPLE: usize = 3;
@@ -119,6 +155,7 @@ const P_ESC: usize = 23;
 const P_MB: usize = 24;
 const P_EMPTY: usize = 25;
 const P_PLAN_NOFIRE: usize = 26;
+const F_FIELD_ERR: usize = 27;
 
 pub struct Failure {
     pub oracle: &'static str,
@@ -163,22 +200,29 @@ pub fn exec(case: &Case, sc: &Script, mut stats: Option<&mut Stats>, keep_log: b
         (Call::Spec(..), false) => Call::Spec(0, 0, 0),
         (c, _) => c.clone(),
     };
-    // ---- reference (fault-free) ----
-    let (reference, ref_chunks): (String, Vec<u32>) = {
+    // ---- reference (fault-free sink; it can still end in Err when a payload's own Display fails) ----
+    let (reference, ref_chunks, ref_ok): (String, Vec<u32>, bool) = {
         let mut rs = SimSink::new(Plan::None);
-        let r = match (&call, v.fixed) {
+        let r = match catch(|| match (&call, v.fixed) {
             (Call::Spec(i, w, p), Some(name)) => (SPECS[*i % SPECS.len()].f)(&name, &mut rs, *w, *p),
             (Call::ToString, Some(name)) => fmt::Write::write_str(&mut rs, name),
             (_, None) => subject.ref_fmt(&mut rs),
+        }) {
+            Ok(r) => r,
+            Err(m) => return (Err(mk_fail("harness_reference", "reference formatting does not panic".into(), m)), info),
         };
-        if r.is_err() {
-            return (Err(mk_fail("harness_reference", "reference formatting succeeds".into(), "Err".into())), info);
+        if r.is_err() && v.fixed.is_some() {
+            return (Err(mk_fail("harness_reference", "formatting a &str into an accepting sink succeeds".into(), "Err".into())), info);
         }
-        (rs.accepted, rs.chunk_lens)
+        (rs.accepted, rs.chunk_lens, r.is_ok())
     };
     info.nontrivial = !reference.is_empty();
     info.trace.s(&reference);
+    info.trace.u(ref_ok as u64);
     if let Some(st) = stats.as_deref_mut() {
+        if !ref_ok {
+            st.hit(F_FIELD_ERR);
+        }
         let k = match (v.kind, v.fixed.is_some()) {
             ("unit", _) => R_FIXED_UNIT,
             ("tuple", true) => R_FIXED_UNIT + 1,
@@ -225,8 +269,19 @@ pub fn exec(case: &Case, sc: &Script, mut stats: Option<&mut Stats>, keep_log: b
                 st.hit(R_FAULT_FREE);
             }
             let got = match catch(|| subject.display().to_string()) {
-                Ok(g) => g,
-                Err(m) => return (Err(mk_fail("panic", "no panic".into(), format!("panic: {}", m))), info),
+                Ok(g) => {
+                    if !ref_ok {
+                        return (Err(mk_fail("error_swallowed", "to_string() panics (a field's Display returned Err)".into(), format!("{:?}", g))), info);
+                    }
+                    g
+                }
+                Err(m) => {
+                    if !ref_ok {
+                        // ToString panics when Display fails: same as format! on the same fields
+                        return (Ok(()), info);
+                    }
+                    return (Err(mk_fail("panic", "no panic".into(), format!("panic: {}", m))), info);
+                }
             };
             if keep_log {
                 info.log.push(format!("to_string() -> {:?}   reference {:?}", got, reference));
@@ -288,6 +343,16 @@ pub fn exec(case: &Case, sc: &Script, mut stats: Option<&mut Stats>, keep_log: b
                 st.hit(P_DIFF_CHUNK);
             }
         }
+    }
+    if !ref_ok && outcome_sut.refused == 0 {
+        // a field's own Display failed: the generated code must return that error after the same output
+        if outcome_sut.ok {
+            return (Err(mk_fail("error_swallowed", "Err (a field's Display returned Err)".into(), format!("Ok, sink holds {:?}", outcome_sut.accepted))), info);
+        }
+        if outcome_sut.accepted != reference {
+            return (Err(mk_fail("output", format!("{:?} then Err", reference), format!("{:?} then Err", outcome_sut.accepted))), info);
+        }
+        return (Ok(()), info);
     }
     match judge_against_reference(&outcome_sut, &reference) {
         Ok(()) => (Ok(()), info),
